@@ -216,6 +216,12 @@ for _p in ("C06", "C08"):
     PROPS[_p]["tasks"].append("Market accessors read their own series")
 for _p in ("C09", "C11"):
     PROPS[_p]["tasks"].append("SequentialRunner._update_markets")
+# later dependencies found by seeded changes (round 6): an index query is a market query (C06); the per-fill booking is what "after holdings have been updated" rests on (C11);
+# a fundamental-price shock shows only through the regenerating accessor of the fundamentals (C14: task + the bounded stand-in for the assumed generator contract)
+PROPS["C06"]["tasks"] = PROPS["C06"]["tasks"] + ["IndexMarket.get_index", "IndexMarket.compute_market_index", "IndexMarket.compute_fundamental_index"]
+PROPS["C11"]["tasks"] = PROPS["C11"]["tasks"] + ["Simulator._update_agents_for_execution"]
+PROPS["C14"]["tasks"] = PROPS["C14"]["tasks"] + ["Fundamentals.get_fundamental_price", "census:callers[fundamentals]"]
+PROPS["C14"]["bounded"] = list(PROPS["C14"].get("bounded") or []) + list(PROPS["C12"]["bounded"])
 from .census import CALLERS as _CALLERS
 for _g, (_ps, _r, _t) in _CALLERS.items():
     for _p in _ps:
